@@ -5,7 +5,7 @@ From Coq Require Import String Ascii List Bool ZArith NArith Lia.
 Import ListNotations.
 From ACH Require Import Bytes JsonCodec JsonCodecFacts JsonSurvive JsonPostTable Layout LayoutOk FileStruct JsonFile JsonFileFacts JsonFileCurrent.
 From ACH Require Import JsonTags JsonPost Offsets OffsetTable Layouts RecValid RecValidFacts RecRules C07Obl C07FileObl.
-From ACH Require Import JsonDefaultsTable JsonDefaults JsonFull JsonFullFacts.
+From ACH Require Import JsonDefaultsTable JsonDefaults JsonFull JsonFullFacts JsonKeepFacts.
 Local Open Scope string_scope.
 Local Open Scope list_scope.
 
@@ -224,6 +224,35 @@ Proof.
   exact (conj defaults_checked (conj always_present_by_rules (conj always_present_sound
          (fun layouts b c => batch_lines_set_adv_plain layouts b c)))).
 Qed.
+
+(* the final form: the kept excused fields are derived from validity, json_safe is exactly the known findings *)
+Theorem roundtrip_final fhv bhv fv v :
+  typed T_File v = true ->
+  in_domain v = true -> valid fhv bhv fv v = true -> tabulated fhv bhv fv v = true -> json_safe v = true ->
+  exists f, from_json fhv bhv fv [] (to_json v) = (if fv f then POk f else PInvalid f)
+            /\ lines_full f = lines_full (tree_full v)
+            /\ write_full f = write_full (tree_full v)
+            /\ file_opts f = file_opts (tree_of_file v)
+            /\ header_opts f = [file_opts (tree_of_file v)]
+            /\ offsets_of f = offsets_of (tree_of_file v).
+Proof.
+  intros Hv Hd Hval Ht Hs. unfold json_safe in Hs. apply andb_prop in Hs as [Ha Hc].
+  exact (roundtrip_full fhv bhv fv v Hv (keep_ok_of_valid fhv bhv fv v Hv Hd Hval Ha) Hd Hval Ht Hc).
+Qed.
+
+Lemma achcli_roundtrip_final fhv bhv fv v :
+  typed T_File v = true ->
+  in_domain v = true -> valid fhv bhv fv v = true -> tabulated fhv bhv fv v = true -> json_safe v = true ->
+  exists f, achcli_reformat fhv bhv fv false [] (to_json v) = (if fv f then POk f else PInvalid f)
+            /\ write_full f = write_full (tree_full v)
+            /\ file_opts f = file_opts (tree_of_file v).
+Proof.
+  intros Hv Hd Hval Ht Hs.
+  destruct (roundtrip_final fhv bhv fv v Hv Hd Hval Ht Hs) as (f & H1 & _ & H3 & H4 & _).
+  exists f. exact (conj H1 (conj H3 H4)).
+Qed.
+
+(* without the Addenda98 condition the statement is false (known finding json:unexported:Addenda98.iatCorrectedData, struct level: C07_addenda98_iat_refuted) *)
 
 (* ------------------------------------------------------------ witnesses *)
 
